@@ -253,6 +253,10 @@ func c16Run(c *core.Ctx, i int) {
 		c16Special(c)
 		return
 	}
+	if i%20 == 14 {
+		c16NestedBreaks(c)
+		return
+	}
 	g := &vmGen{unsafe: 0.04, zeroStep: true}
 	prog, globals := vmProgram(r, g)
 	text := gen.Print(prog, nil)
@@ -335,6 +339,52 @@ func c16Special(c *core.Ctx) {
 	fmt.Fprintf(&b, "while !(cnt2 %s 3) == false\n    cnt2 = cnt2 + 1\n    if cnt2 > 5\n        break\n    end\nend\n", pick(r, "<", "<="))
 	text := b.String()
 	c.Cover("family", "special-number-comparisons")
+	c.Journal(text)
+	c.Distinct(text)
+	c.Event("disagreements_checked", 1)
+	c16Compare(c, text, globals, "")
+}
+
+// c16NestedBreaks: loops nested two and three deep where an enclosing loop has a break textually before,
+// after, or before and after the nested loop, which has breaks of its own.
+func c16NestedBreaks(c *core.Ctx) {
+	r := c.Rng
+	var b strings.Builder
+	b.WriteString("n := 0\nrounds := 0\ninner := 0\ndeep := 0\ndone := false\nn = n\nrounds = rounds\ninner = inner\ndeep = deep\n")
+	outerWhile := r.Intn(2) == 0
+	lim := 2 + r.Intn(4)
+	if outerWhile {
+		b.WriteString("while true\n")
+	} else {
+		b.WriteString("for o := range 50\n    if o < 0\n        n = n + 100\n    end\n")
+	}
+	before, after := r.Intn(3) > 0, r.Intn(2) == 0
+	if !before && !after {
+		before = true
+	}
+	if before {
+		fmt.Fprintf(&b, "    if n > %d\n        break\n    end\n", lim)
+	}
+	b.WriteString("    rounds = rounds + 1\n")
+	switch r.Intn(3) {
+	case 0:
+		fmt.Fprintf(&b, "    for i := range 10\n        if i == %d\n            break\n        end\n        n = n + 1\n        inner = inner + i\n    end\n", 1+r.Intn(3))
+	case 1:
+		fmt.Fprintf(&b, "    w := 0\n    while true\n        w = w + 1\n        if w > %d\n            break\n        end\n        n = n + 1\n        inner = inner + w\n    end\n", 1+r.Intn(3))
+	default:
+		fmt.Fprintf(&b, "    for i := range [1 2 3 4]\n        if i == %d\n            break\n        end\n        for j := range 5\n            if j > i\n                break\n            end\n            deep = deep + 1\n        end\n        n = n + 1\n        inner = inner + i\n    end\n", 2+r.Intn(3))
+	}
+	if after {
+		fmt.Fprintf(&b, "    if rounds >= %d\n        break\n    end\n", 2+r.Intn(5))
+	}
+	b.WriteString("end\ndone = true\ndone = done\n")
+	text := b.String()
+	var globals []gen.VarInfo
+	for _, g := range []string{"n", "rounds", "inner", "deep"} {
+		globals = append(globals, gen.VarInfo{Name: g, T: tNum, Len: -1})
+	}
+	globals = append(globals, gen.VarInfo{Name: "done", T: tBool, Len: -1})
+	c.Cover("family", "nested-breaks")
 	c.Journal(text)
 	c.Distinct(text)
 	c.Event("disagreements_checked", 1)
